@@ -39,7 +39,11 @@ type c21Turn struct {
 }
 
 // c21Fault: Net 0 ok, 1 fail before forwarding, 2 fail after the server answered.
-// Status 0 = keep. Enc 0 keep, 1 unknown coding, 2 declared gzip but not gzip.
+// Status 0 = keep. Enc 0 keep, 1 unsupported coding on Content-Encoding, 2 gzip declared
+// there but body not gzip, 3 unsupported coding on X-VGI-Content-Encoding only, 4 on
+// both headers, 5 standard unsupported + custom fine, 6 standard fine + custom
+// unsupported (accepted: the standard header is authoritative), 7 custom-only gzip
+// declared but body not gzip.
 // Body 0 keep, 1 garbage, 2 empty, 3 cut inside the last message, 4 trailing
 // bytes that the IPC framing guard lets through (shorter than a length word, or a
 // further end-of-stream marker), 5 frames carrying a cursor removed, 6 token keys
@@ -536,9 +540,37 @@ func (p *c21Proxy) RoundTrip(req *http.Request) (*http.Response, error) {
 		case f.Enc == 0 && f.Var%4 == 3 && !f.Over:
 			hdr.Set("Content-Encoding", " identity ")
 		}
+		unk := []string{"br", "deflate", "gzip, br", "x-unknown"}
 		switch f.Enc {
-		case 1:
-			hdr.Set("Content-Encoding", []string{"br", "deflate", "gzip, br", "x-unknown"}[f.Var%4])
+		case 1: // standard header only
+			hdr.Set("Content-Encoding", unk[f.Var%4])
+		case 3: // custom header only (an intermediary adding / rewriting it)
+			hdr.Set("X-VGI-Content-Encoding", unk[f.Var%4])
+		case 4: // both, with different unsupported values
+			hdr.Set("Content-Encoding", unk[f.Var%4])
+			hdr.Set("X-VGI-Content-Encoding", unk[(f.Var+1)%4])
+		case 5: // standard unsupported, custom fine
+			hdr.Set("Content-Encoding", unk[f.Var%4])
+			if f.Var%2 == 0 && !f.Over {
+				body = c21Gzip(body)
+				hdr.Set("X-VGI-Content-Encoding", "gzip")
+			} else {
+				hdr.Set("X-VGI-Content-Encoding", "identity")
+			}
+		case 6: // standard fine and authoritative, custom unsupported: not consulted
+			if f.Var%2 == 0 && !f.Over {
+				body = c21Gzip(body)
+				hdr.Set("Content-Encoding", "gzip")
+			} else {
+				hdr.Set("Content-Encoding", "identity")
+			}
+			hdr.Set("X-VGI-Content-Encoding", unk[(f.Var/2)%4])
+		case 7: // custom header only: gzip declared, body is not gzip
+			hdr.Set("X-VGI-Content-Encoding", "gzip")
+			if f.Var%2 == 1 {
+				g := c21Gzip(body)
+				body = g[:len(g)/2]
+			}
 		case 2:
 			hdr.Set("Content-Encoding", "gzip") // body is not gzip
 			if f.Var%2 == 1 {
@@ -883,7 +915,8 @@ func c21LogList(l []int) string {
 }
 func c21CoqFault(f c21Fault) string {
 	return App("C21.Build_fault", []string{"C21.NetOk", "C21.NetBefore", "C21.NetAfter"}[f.Net], Z(int64(f.Status)), Bool(f.Over),
-		[]string{"C21.EncKeep", "C21.EncUnknown", "C21.EncBad"}[f.Enc],
+		[]string{"C21.EncKeep", "C21.EncUnknown", "C21.EncBad", "C21.EncCustomUnknown", "C21.EncBothUnknown",
+			"C21.EncStdUnknownCustomOk", "C21.EncStdOkCustomUnknown", "C21.EncCustomBad"}[f.Enc],
 		[]string{"C21.BKeep", "C21.BGarbage", "C21.BEmpty", "C21.BTrunc", "C21.BTrailing", "C21.BDropCur", "C21.BStrip", "C21.BDrift", "C21.BTruncHead", "C21.BTrailBig"}[f.Body],
 		Bool(f.ErrHdr))
 }
@@ -1019,7 +1052,7 @@ func c21GenFault(r *rand.Rand) c21Fault {
 	case 3:
 		f.Over = true
 	case 4:
-		f.Enc = 1 + r.Intn(2)
+		f.Enc = 1 + r.Intn(7)
 	case 5, 6, 7, 8, 9:
 		f.Body = 1 + r.Intn(9)
 	case 10:
@@ -1028,7 +1061,7 @@ func c21GenFault(r *rand.Rand) c21Fault {
 		f.Status = statuses[r.Intn(len(statuses))]
 		switch r.Intn(4) {
 		case 0:
-			f.Enc = 1 + r.Intn(2)
+			f.Enc = 1 + r.Intn(7)
 		case 1:
 			f.Over = true
 		case 2:
@@ -1157,7 +1190,10 @@ func c21Gen(r *rand.Rand, n int, tier string) []c21In {
 	// 3-turn exchange stream and of a 3-response producer stream, then at init.
 	var singles []c21Fault
 	singles = append(singles, c21Fault{Net: 1}, c21Fault{Net: 2}, c21Fault{Net: 2, Var: 1}, c21Fault{Over: true}, c21Fault{Over: true, Var: 1},
-		c21Fault{Over: true, Var: 2}, c21Fault{Enc: 1}, c21Fault{Enc: 2}, c21Fault{Enc: 2, Var: 1}, c21Fault{ErrHdr: true},
+		c21Fault{Over: true, Var: 2}, c21Fault{Enc: 1}, c21Fault{Enc: 2}, c21Fault{Enc: 2, Var: 1},
+		c21Fault{Enc: 3}, c21Fault{Enc: 3, Var: 1}, c21Fault{Enc: 3, Var: 2}, c21Fault{Enc: 3, Var: 3}, c21Fault{Enc: 4}, c21Fault{Enc: 4, Var: 2},
+		c21Fault{Enc: 5}, c21Fault{Enc: 5, Var: 1}, c21Fault{Enc: 6}, c21Fault{Enc: 6, Var: 1}, c21Fault{Enc: 6, Var: 2}, c21Fault{Enc: 7}, c21Fault{Enc: 7, Var: 1},
+		c21Fault{Enc: 3, Status: 500}, c21Fault{Enc: 3, Body: 6}, c21Fault{Enc: 6, Body: 7}, c21Fault{ErrHdr: true},
 		c21Fault{Var: 5}, c21Fault{Var: 6}, c21Fault{Var: 7})
 	for _, s := range []int{199, 200, 299, 300, 404, 500} {
 		singles = append(singles, c21Fault{Status: s})
